@@ -58,7 +58,17 @@ func TestC19(t *testing.T) {
 		"Matcher expressions at the edge of the glob / regular expression syntax as `hosts` and `path_params` values (lane rules-matchers): once such a rule set is in effect, harmless requests are sent through the " +
 		"matchers on the HTTP decision service and as envoy CheckRequests to a second, gRPC instance that loads the same file. Key store lanes: after every reload attempt the key set published on the management " +
 		"endpoint (/.well-known/jwks) and what the reloading component itself hands out (Keys() / Certificates() of the listener registered with the secrets watcher) are compared with the state before: a rejected " +
-		"reload - also one rejected late, by the signer, because of the certificate's key usage - must leave both untouched. Each file " +
+		"reload - also one rejected late, by the signer, because of the certificate's key usage - must leave both untouched. " +
+		"Certificate pools that are graphs (class cert-graph, all key store lanes, key first and key last): cross certificates of two and three CAs instead of / before / after their roots, a ring " +
+		"of eight CAs, a ring below an intermediate, a CA certified by two others, issuers found by name only, re-keyed CAs (two issuers with one subject), unrelated self-signed certificates in the middle, every certificate " +
+		"twice, the leaf repeated, a CA key's own cross certificates, two entries sharing cross-certified CAs. The key stores are configured with a password: `ENCRYPTED PRIVATE KEY` entries for every KDF / cipher of the decoder, " +
+		"the wrong password, and KDF / cipher parameters at and beyond their edges (pbkdf2 iteration count 0, -1, 1, 2^18, 2^40; empty / 1 MB salt; unknown / absent PRF; scrypt cost, block size, parallelisation 0, negative, " +
+		"not a power of two, 2^31..2^62; IV of 0-32 bytes / not an octet string; encrypted data of 0, 1, 15, n-1, n+1, n-16 bytes; unknown KDF / cipher / scheme) and bit flips of such a store; a reload that is started and does not " +
+		"end within the patience for a reload statement is told apart from a lost notification by the stacks of the process (reload-blocked: the notification goroutine is inside OnChanged). Lane request-burst: bursts of 16-32 " +
+		"requests completed at the same moment (connections opened and filled up to the last byte beforehand) against every rule of the child (jwt via jwks / metadata / templated metadata with headers, introspection direct / via " +
+		"metadata, generic authenticator, remote authorizer, contextualizer, jwt finalizer, and all at once), each round in a fresh child so that the requests are the first ones the mechanisms see; every request must be answered " +
+		"(asked once more alone before it counts) and the process must live. Lane remote-rules: children with an http_endpoint provider polling the scripted server every 40 ms: documents that are no rule set, truncations with " +
+		"FIN / RST / matching Content-Length, HTTP level faults, responses that are never finished while the connection stays open; afterwards a fresh valid rule set must be loaded. Each file " +
 		"step is one system call = one file event = one exact content, journaled before it is applied. A case is non-trivial if heimdall demonstrably consumed the input (logged reload " +
 		"attempt, processed rule event proven by a later sentinel rule file, remote endpoint asked, request answered).")
 	r.Assume("the trust store is only read when a mechanism is created (this tree has no trust store hot reload): it is enumerated through authenticators.CreatePrototype",
@@ -78,10 +88,15 @@ func TestC19(t *testing.T) {
 		"a recovered panic while a request is evaluated against a matcher expression (HTTP 500 / gRPC Internal) is an error response in the sense of the statement: recorded (recovered_panics_answered_with_error_response, notes), no verdict",
 		"files that appear next to the rule files are not judged as rule sets (whether a temporary file was loaded for a moment depends on timing); judged are the life of the process, the sentinel, the rule sets of "+
 			"untouched files and - for a rule file replaced by rename - the same rules as for a rule file rewritten in place. A rule file that is moved away and written anew (editor backup save) may be unloaded in between",
+		"a reload counts as blocked if, after the waiting periods that otherwise lead to watcher-stopped (22 s), a goroutine started by the secrets watcher's fireOnChange is still inside the listener's OnChanged: the "+
+			"signature names the innermost heimdall function on that goroutine; a second watched file is then written and the notifications queued behind the running one are counted (detail of the case)",
+		"a remote that keeps a connection with an unfinished response open is not a byte content: polls that do not happen while it does so are recorded (polls-suspended-while-response-stalls), judged is whether the "+
+			"poller goes on once the remote has closed the connection and serves a valid rule set; what becomes of the rule set loaded before a faulty response is C18's subject",
+		"requests of a burst are well-formed and carry valid credentials: their status is recorded (burst-request-answered-non-200), not judged",
 		"Keys() / Certificates() of the components that reload a key store are read in-process through the listener table of the secrets watcher (reflection, as for the Errors channel): in this tree the "+
 			"http_message_signatures strategy is not added to the key holder registry, so its keys are not visible on the management endpoint")
 
-	g := &gen{corpus: map[string][]byte{}, rng: r.Stream("c19-inputs"), thorough: r.Thorough()}
+	g := &gen{corpus: map[string][]byte{}, rng: r.Stream("c19-inputs"), rngX: r.Stream("c19-inputs-x"), thorough: r.Thorough()}
 	bases := g.buildKeyStoreCorpus()
 	var lanes []lane
 	shards := r.Pick(1, 3)
@@ -103,6 +118,7 @@ func TestC19(t *testing.T) {
 	lanes = append(lanes, g.rulesEnvLane(), g.remoteDeepLane())
 	lanes = append(lanes, g.rulesChurnLane(), g.rulesMatcherLane())
 	lanes = append(lanes, g.requestDeepLanes()...)
+	lanes = append(lanes, g.requestBurstLane(), g.remoteRulesLane())
 	// the lanes that take longest start first (the generation order above fixes the inputs, not the schedule)
 	sort.SliceStable(lanes, func(i, j int) bool { return laneRank(lanes[i].name) < laneRank(lanes[j].name) })
 	if r.Thorough() {
@@ -205,6 +221,9 @@ func TestC19(t *testing.T) {
 	r.Require("rule_directory_file_operations", r.Counter("rule_directory_file_operations"), int64(r.Pick(1000, 5000)))
 	r.Require("requests_answered_through_edge_matcher_expressions", r.Counter("requests_answered_through_edge_matcher_expressions"), 200)
 	r.Require("offered_keys_and_certificates_confirmed_after_rejected_reload", r.Counter("offered_keys_and_certificates_confirmed_after_rejected_reload"), int64(r.Pick(100, 500)))
+	r.Require("bursts_of_simultaneous_first_requests_for_a_rule", r.Counter("bursts_of_simultaneous_first_requests_for_a_rule"), int64(r.Pick(50, 150)))
+	r.Require("requests_in_bursts_answered", r.Counter("requests_in_bursts_answered"), int64(r.Pick(1000, 4000)))
+	r.Require("sentinels_observed_"+kRemoteRules, r.Counter("sentinels_observed_"+kRemoteRules), 50)
 	r.Require("children_spawned", int64(mon.spawned), int64(len(lanes)))
 	r.End()
 }
@@ -409,6 +428,10 @@ func (m *monitor) account(res *inResult, inputs []inputSpec) (violated []string)
 	r.Count("rule_directory_file_operations", res.Churn)
 	r.Count("requests_answered_through_edge_matcher_expressions", res.Matched)
 	r.Count("env_expressions_observed_expanded_in_a_served_route", res.Expanded)
+	r.Count("bursts_of_simultaneous_requests", res.Bursts)
+	r.Count("bursts_of_simultaneous_first_requests_for_a_rule", res.BurstsCold)
+	r.Count("requests_in_bursts_answered", res.BurstAnswered)
+	r.Count("rule_set_polls_answered_with_a_scripted_response", res.Polls)
 	if res.Deep > 0 {
 		r.Count("deep_documents_handed_over_"+res.Kind, res.Deep)
 	}
